@@ -4,6 +4,9 @@ import json, os, sys
 ROOT = os.path.dirname(os.path.dirname(os.path.abspath(__file__)))
 
 CHECKS = {
+ "C02": ("exploration", "runtime monitoring: ledger of acknowledged commits re-read (live, cold copy, after reopen) + online monitor on issued/committed hooks + Merkle reference for the chain, under concurrent committers with hook-point schedule perturbation",
+         "Held on the executions produced: 8 (quick) / 64 (thorough) store configurations, each with 3-4 rounds of 4-12 concurrent committers (12 operation kinds incl. refused, conflicting and cancelled txs), maintenance (flush, compaction, sync, truncation), external-commit-allowance backlogs with discarding, and close/reopen cycles; every acknowledged tx is re-read and compared, the whole committed range is re-chained against an independent RFC 6962 root, every sampled state is checked retrospectively.",
+         "Interleavings are those the Go scheduler and the verifhook points produce; SHA-256; a process death inside immudb code is reported as a violation (crash/...); a store that stops making progress is inconclusive, not a violation.", "DESIGN.md 2/C02"),
  # id: (category, technique, level text, level note, design ref)
  "C15": ("exploration", "runtime oracle: round-trip + order relation against an independent comparator over PRNG/boundary/neighbour values",
          "Held on the millions of generated values and pairs actually encoded and decoded by the real codecs (key and value encoders, tx header/metadata, proto conversions, ExportTx->ReplicateTx->ExportTx on live stores, ORDER BY through real indexes); no claim beyond the generated values.",
